@@ -57,6 +57,9 @@ def get_line_range_for_node(
 
     """
     first_lineno = node.lineno
+    # the lines of a decorated function or class start at its first decorator
+    for decorator in getattr(node, "decorator_list", ()):
+        first_lineno = min(first_lineno, decorator.lineno)
     # iterate through all childnodes and find the max lineno
     last_lineno = first_lineno + 1
     for childnode in ast.walk(node):
